@@ -111,6 +111,7 @@ type Thread struct {
 	grant    int32
 	result   int
 	rdv      bool
+	hand     int8 // 0 plain, 1 unbuffered rendezvous, 2 direct hand-off on a buffered channel, 3 pull of a blocked sender
 	daemon   bool
 	panicked bool
 	panicVal string
@@ -674,6 +675,18 @@ func CurTid() int {
 // is offered for a map range over n keys (nil: only the canonical sorted order).
 func SetMapOrder(f func(n int) int) { mapOrder = f }
 
+// InHand returns the value thread tid received through a direct hand-off on a buffered channel
+// and has not finished processing (it has not returned to its idle loop since); only with
+// SetShadow(true).
+func InHand(tid int) any {
+	if inHand == nil {
+		return nil
+	}
+	return inHand[tid]
+}
+
+var inHand map[int]any
+
 // SetDaemonYield decides whether the blocking channel operations of daemon threads (the idle
 // loops of the applier and the policy goroutine) are voluntary switch points. The sequential
 // driver needs it (a driven daemon stops there); the preemptive DFS leaves it off so that
@@ -711,8 +724,9 @@ func PoolPoint(addr unsafe.Pointer) {
 type Trans struct {
 	Tid     int
 	Case    int // select case index / choose value
-	Partner int // rendezvous partner thread, -1 if none
+	Partner int // partner thread of a joint channel transition, -1 if none
 	PCase   int
+	Hand    int8 // 1 unbuffered rendezvous, 2 hand-off to a blocked receiver, 3 pull of a blocked sender
 }
 
 // Point describes one decision of the controller.
@@ -774,6 +788,10 @@ type controller struct {
 	trace   []string
 	opts    Options
 	running int
+	// threads that are BLOCKED in a channel operation (parked at an operation that could not
+	// proceed): Go has queued them, in this order, on the channel's wait queues
+	blocked  [MaxThreads]int64
+	blockSeq int64
 	// active Drive request
 	driving    bool
 	driver     int
@@ -781,6 +799,10 @@ type controller struct {
 }
 
 var ctl controller
+
+// ctlHand is the kind of joint channel transition being granted (set by the controller right
+// before it grants the two partners).
+var ctlHand int8
 
 //go:norace
 func resetGlobals() {
@@ -798,6 +820,7 @@ func resetGlobals() {
 	allAtomics = true
 	shadowOn = false
 	shadow = nil
+	inHand = nil
 	daemonYield = false
 	logLocks = false
 	mapOrder = nil
@@ -867,8 +890,13 @@ func dumpThreads() string {
 
 //go:norace
 func grantThread(t *Thread, result int, rdv bool) {
+	ctl.blocked[t.id] = 0
 	t.result = result
 	t.rdv = rdv
+	t.hand = ctlHand
+	if !rdv {
+		t.hand = 0
+	}
 	t.state = stRunning
 	t.grant = 1
 }
@@ -937,6 +965,8 @@ func Run(main func(), ch Chooser, opts Options) *Result {
 	c.opts = opts
 	c.running = 0
 	c.driving = false
+	c.blocked = [MaxThreads]int64{}
+	c.blockSeq = 0
 	res := &Result{}
 
 	t0 := allocThread("main", false)
@@ -980,6 +1010,7 @@ func Run(main func(), ch Chooser, opts Options) *Result {
 			res.Detail = fmt.Sprintf("step horizon %d exceeded", opts.MaxSteps)
 			break
 		}
+		c.stampBlocked(n, reqs[:n], states[:n])
 		// forced moves: a thread start and the resumption after a rendezvous only run
 		// thread-local code up to the next real point; they commute with everything and
 		// are not decisions
@@ -1056,6 +1087,7 @@ func Run(main func(), ch Chooser, opts Options) *Result {
 		setStep(int32(step+1), tr.Tid)
 		c.running = tr.Tid
 		if tr.Partner >= 0 {
+			ctlHand = tr.Hand
 			grantThread(&threads[tr.Partner], tr.PCase, true)
 			grantThread(&threads[tr.Tid], tr.Case, true)
 		} else {
@@ -1145,7 +1177,14 @@ func (c *controller) enabled(i int, r *request, reqs []request, states []int32) 
 					any = true
 				case m.cap > 0:
 					if m.qlen < m.cap {
-						c.trans = append(c.trans, Trans{Tid: i, Case: k, Partner: -1})
+						tr := Trans{Tid: i, Case: k, Partner: -1}
+						if m.qlen == 0 {
+							// a receiver blocked on the empty channel gets the value directly
+							if j, pk := c.oldestBlocked(cr.ch, false, i, reqs, states); j >= 0 {
+								tr.Partner, tr.PCase, tr.Hand = j, pk, 2
+							}
+						}
+						c.trans = append(c.trans, tr)
 						any = true
 					}
 				default:
@@ -1157,7 +1196,7 @@ func (c *controller) enabled(i int, r *request, reqs []request, states []int32) 
 						for pk := 0; pk < reqs[j].ncase; pk++ {
 							pc := &reqs[j].cases[pk]
 							if !pc.send && pc.ch == cr.ch {
-								c.trans = append(c.trans, Trans{Tid: i, Case: k, Partner: j, PCase: pk})
+								c.trans = append(c.trans, Trans{Tid: i, Case: k, Partner: j, PCase: pk, Hand: 1})
 								any = true
 							}
 						}
@@ -1166,7 +1205,14 @@ func (c *controller) enabled(i int, r *request, reqs []request, states []int32) 
 			} else {
 				switch {
 				case m.qlen > 0 || m.closed:
-					c.trans = append(c.trans, Trans{Tid: i, Case: k, Partner: -1})
+					tr := Trans{Tid: i, Case: k, Partner: -1}
+					if m.cap > 0 && m.qlen == m.cap && !m.closed {
+						// a sender blocked on the full channel completes as part of this receive
+						if j, pk := c.oldestBlocked(cr.ch, true, i, reqs, states); j >= 0 {
+							tr.Partner, tr.PCase, tr.Hand = j, pk, 3
+						}
+					}
+					c.trans = append(c.trans, tr)
 					any = true
 				case m.cap == 0:
 					// rendezvous is listed on the sender's side; remember that this thread is
@@ -1193,6 +1239,76 @@ func (c *controller) enabled(i int, r *request, reqs []request, states []int32) 
 	default:
 		panic(fmt.Sprintf("vsched: thread %d parked with kind %v", i, r.kind))
 	}
+}
+
+// readyAlone reports whether thread i, parked at a channel operation, could proceed by itself.
+func (c *controller) readyAlone(i int, reqs []request, states []int32) bool {
+	r := &reqs[i]
+	if r.hasDefault {
+		return true
+	}
+	for k := 0; k < r.ncase; k++ {
+		cr := &r.cases[k]
+		if cr.ch == 0 {
+			continue
+		}
+		m := c.chanOf(cr)
+		if m.closed {
+			return true
+		}
+		if m.cap > 0 {
+			if cr.send && m.qlen < m.cap || !cr.send && m.qlen > 0 {
+				return true
+			}
+			continue
+		}
+		for j := range reqs {
+			if j == i || states[j] != stParked || reqs[j].kind != OpChan {
+				continue
+			}
+			for pk := 0; pk < reqs[j].ncase; pk++ {
+				if pc := &reqs[j].cases[pk]; pc.send != cr.send && pc.ch == cr.ch {
+					return true
+				}
+			}
+		}
+	}
+	return false
+}
+
+// stampBlocked records, in arrival order, the threads that are parked at a channel operation
+// which cannot proceed: in Go they sit on the channel's wait queue from that moment on.
+func (c *controller) stampBlocked(n int, reqs []request, states []int32) {
+	for i := 0; i < n; i++ {
+		if states[i] != stParked || reqs[i].kind != OpChan {
+			c.blocked[i] = 0
+			continue
+		}
+		if c.blocked[i] == 0 && !c.readyAlone(i, reqs, states) {
+			c.blockSeq++
+			c.blocked[i] = c.blockSeq
+		}
+	}
+}
+
+// oldestBlocked returns the longest-blocked thread (and its case index) with a send (wantSend)
+// or receive case on channel ch, or -1.
+func (c *controller) oldestBlocked(ch uintptr, wantSend bool, except int, reqs []request, states []int32) (int, int) {
+	best, bestCase := -1, 0
+	for j := range reqs {
+		if j == except || states[j] != stParked || reqs[j].kind != OpChan || c.blocked[j] == 0 {
+			continue
+		}
+		for pk := 0; pk < reqs[j].ncase; pk++ {
+			if pc := &reqs[j].cases[pk]; pc.send == wantSend && pc.ch == ch {
+				if best < 0 || c.blocked[j] < c.blocked[best] {
+					best, bestCase = j, pk
+				}
+				break
+			}
+		}
+	}
+	return best, bestCase
 }
 
 func (c *controller) apply(tr Trans, reqs []request) {
@@ -1314,10 +1430,12 @@ func (c *controller) involving(tid int, reqs []request, states []int32) {
 		}
 		before := len(c.trans)
 		c.enabled(j, &reqs[j], reqs, states)
-		// keep only rendezvous with tid
+		// keep only unbuffered rendezvous with tid: there both sides are at the operation. In a
+		// hand-off / pull on a buffered channel the blocked thread is passive: the transition
+		// is the OTHER thread's decision and must not be triggered by driving the blocked one.
 		k := before
 		for _, tr := range c.trans[before:] {
-			if tr.Partner == tid {
+			if tr.Partner == tid && tr.Hand == 1 {
 				c.trans[k] = tr
 				k++
 			}
@@ -1409,6 +1527,7 @@ func (c *controller) handleDriver(step, n int, reqs []request, states []int32) b
 	setStep(int32(step+1), tr.Tid)
 	c.running = tr.Tid
 	if tr.Partner >= 0 {
+		ctlHand = tr.Hand
 		grantThread(&threads[tr.Partner], tr.PCase, true)
 		grantThread(&threads[tr.Tid], tr.Case, true)
 	} else {
